@@ -24,7 +24,7 @@ for _p in ():
 CHECKS = {
  "C13": dict(
   level="exploration",
-  text="Seeded search over simulated thread schedules: the prange loop of _tomtom is re-compiled from the working-tree source into steppable per-iteration generators and run on K=1..16 simulated threads with seeded work distribution (static/cyclic/dynamic/one-thread), statement-level interleaving and poisoned numpy.empty scratch (zero/NaN/huge/-1/random/stale-from-previous-call), in sessions of 1-3 tomtom()/annotate_seqlets() calls over subsets/permutations/duplications of a mixed-length query pool; every row is compared bit-for-bit with the single-query, single-thread, zero-scratch reference, n_nearest against the full row. A second leg runs the shipped compiled binary at real thread counts/chunk sizes. Worlds also cover memory layouts / containers / per-query dtypes of the motifs, duplicated, near-duplicate and redundant targets, near-twin queries, 300-900-target databases, query lists > 2048, and results of earlier calls are re-verified at the end of a session. Sampling, not proof: a clean batch is evidence that no schedule/scratch dependence exists in the explored space.",
+  text="Seeded search over simulated thread schedules: the prange loop of _tomtom is re-compiled from the working-tree source into steppable per-iteration generators and run on K=1..16 simulated threads with seeded work distribution (static/cyclic/dynamic/one-thread), statement-level interleaving and poisoned numpy.empty scratch (zero/NaN/huge/-1/random/stale-from-previous-call), in sessions of 1-3 tomtom()/annotate_seqlets() calls over subsets/permutations/duplications of a mixed-length query pool; every row is compared bit-for-bit with the single-query, single-thread, zero-scratch reference, n_nearest against the full row. A second leg runs the shipped compiled binary at real thread counts/chunk sizes. Worlds also cover memory layouts / containers / per-query dtypes of the motifs, duplicated, near-duplicate and redundant targets, near-twin queries, 300-900-target databases, query lists > 2048, count-matrix and rounded (not exactly normalised) queries in mixed dtypes, and results of earlier calls are re-verified at the end of a session. Sampling, not proof: a clean batch is evidence that no schedule/scratch dependence exists in the explored space.",
   ref="DESIGN.md 4 (C13), 3.2-3.5",
   note="Trusted: CPython executing the orchestration source is faithful to numba's compilation of it (tied back by the real-thread leg, which is bit-compared with the interpreted reference as a probe); compiled kernels are atomic w.r.t. pre-emption; kernels' own internal allocation (t_sums) not poisoned.",
   technique="deterministic simulation: seeded thread-schedule + poisoned-allocator fault injection against a single-thread reference model",
@@ -34,14 +34,14 @@ CHECKS = {
 CHECKS.update({
  "C07": dict(
   level="fault_enumeration",
-  text="Crash-point enumeration plus history simulation. Leg 'enum': for each generated (model architecture, API op) pair a dry run counts how often every call-level seam is hit (model forward, autograd backward, reference generator, custom non-linearity rule, func, shuffle_fn); an exception is then injected at EVERY (seam, k) with each of RuntimeError / ValueError / KeyboardInterrupt, plus every invalid-input variant of the op (N column, out-of-range target, wrong args/reference shapes, wrong channels, int8 input, device='cuda'), each on a fresh copy of the model; afterwards all hook dictionaries must be empty, state_dict bytes / requires_grad flags unchanged, no module switched to training, grad mode restored, and forward output and ordinary gradients (w.r.t. input and every parameter) on a probe batch bit-identical. Exhaustive over crash points within each spec; specs are sampled. Leg 'hist': sessions of 2-8 ops (all 14 model-taking API functions, also with func=deep_lift_shap) on ONE shared model, some carrying a fault, each compared with the same op on a pristine copy (same outcome class, bit-equal results; first clean op after a failure must be correct). Generated models also carry aliased activations, mixed train/eval sub-modules, user hooks, accumulated parameter .grad, a float64 buffer in float32 nets, lazily cached tensors, in-place layers, layers named input/output, a legacy backward-hook history and subnormal activations; the snapshot includes every parameter's .grad and the reference probe runs on a deep copy.",
+  text="Crash-point enumeration plus history simulation. Leg 'enum': for each generated (model architecture, API op) pair a dry run counts how often every call-level seam is hit (model forward, autograd backward, reference generator, custom non-linearity rule, func, shuffle_fn); an exception is then injected at EVERY (seam, k) with each of RuntimeError / ValueError / KeyboardInterrupt, plus every invalid-input variant of the op (N column, out-of-range target, wrong args/reference shapes, wrong channels, int8 input, device='cuda'), each on a fresh copy of the model; afterwards all hook dictionaries must be empty, state_dict bytes / requires_grad flags unchanged, no module switched to training, grad mode restored, and forward output and ordinary gradients (w.r.t. input and every parameter) on a probe batch bit-identical. Exhaustive over crash points within each spec; specs are sampled. Leg 'hist': sessions of 2-8 ops (all 14 model-taking API functions, also with func=deep_lift_shap) on ONE shared model, some carrying a fault, each compared with the same op on a pristine copy (same outcome class, bit-equal results; first clean op after a failure must be correct). Generated models also carry aliased activations, mixed train/eval sub-modules, user hooks, accumulated parameter .grad, a float64 buffer in float32 nets, lazily cached tensors, in-place layers, layers named input/output, a legacy backward-hook history, subnormal activations and an implicit-dim Softmax (behaviour in a plain attribute); the snapshot includes every parameter's .grad and the reference probe runs on a deep copy.",
   ref="DESIGN.md 4 (C07)",
   note="Faults only at call-level seams the property names; CPU only; bit-equality relies on deterministic single-threaded torch kernels; leftover scratch attributes (module.input/.output/_NON_LINEAR_OPS) are probes, not violations.",
   technique="deterministic simulation: exhaustive crash-point (exception) injection at call-level seams + seeded call histories on a shared model vs pristine-copy reference",
   engine="modelworld"),
  "C06": dict(
   level="exploration",
-  text="History simulation with knob randomisation: sessions of 4-14 operations on one shared generated model -- deep_lift_shap over subsets / permutations / duplications of the example set with seeded batch sizes (1, n_shuffles-1, n_shuffles, n_shuffles+1, multiples, coprimes, total+1), three output modes, generator+integer seed or explicit reference tensor, return_references, through marginalize(func=deep_lift_shap), interleaved with perturbations of every process-global the result must not depend on (numpy/torch RNG, numba thread count, model.train(), other API calls on the model, caller thread, and in the fault-injecting leg a failed deep_lift_shap call). Further history ops: a call that passes additional_nonlinear_ops, an edit of the model between calls, in-place post-processing of returned references, an interfering thread touching global generators at a statement inside the call (settrace pre-emption points); further reference kinds: plain shuffle or a **kwargs wrapper as generator, references a hair away from the input, mixed zero baselines. Every attribution row is compared with the canonical single-example result, every returned reference bit-for-bit; worlds whose forward passes sit on a discontinuity of the DeepLIFT rules (max-pool ties) are skipped and counted.",
+  text="History simulation with knob randomisation: sessions of 4-14 operations on one shared generated model -- deep_lift_shap over subsets / permutations / duplications of the example set with seeded batch sizes (1, n_shuffles-1, n_shuffles, n_shuffles+1, multiples, coprimes, total+1), three output modes, generator+integer seed or explicit reference tensor, return_references, through marginalize(func=deep_lift_shap), interleaved with perturbations of every process-global the result must not depend on (numpy/torch RNG, numba thread count, model.train(), other API calls on the model, caller thread, and in the fault-injecting leg a failed deep_lift_shap call). Further history ops: a call that passes additional_nonlinear_ops, an edit of the model between calls, in-place post-processing of returned references, an interfering thread touching global generators at a statement inside the call (settrace pre-emption points); further reference kinds: plain shuffle or a **kwargs wrapper as generator, references a hair away from the input, mixed zero baselines. Leg 'scale': single calls with 1025..n*ns rows per batch or 2^15+k / 2^16+k examples, sampled rows against the example alone. Every attribution row is compared with the canonical single-example result, every returned reference bit-for-bit; worlds whose forward passes sit on a discontinuity of the DeepLIFT rules (max-pool ties) are skipped and counted.",
   ref="DESIGN.md 4 (C06)",
   note="Attributions compared with tolerance (batching changes BLAS summation order); references bit-exact; random_state always an integer or explicit tensor as the statement requires.",
   technique="deterministic simulation: seeded call histories + global-state perturbation faults on a shared model vs single-example reference model",
